@@ -58,7 +58,18 @@ def run_case(case):
 	elif kind == 'py_encrc':
 		exp, act = spec_enc(spec_rc(w)), _call(gk.kmer_to_index_rc, w)
 	elif kind == 'rc':
+		import gambit.seq as gs
 		exp, act = list(spec_rc(w)), list(_call(ck.revcomp, w))
+		for name, f in (('gambit.seq.revcomp', gs.revcomp), ('gambit.kmers.revcomp', gk.revcomp)):   # every binding the library uses
+			if exp == act:
+				act = list(_call(f, w))
+				if exp != act:
+					act = [name] + act
+		if exp == act and len(w) <= 32:
+			# consistency of the two encoders with the reverse complement, through the library's own names
+			a1, a2 = _call(gk.kmer_to_index_rc, w), _call(gk.kmer_to_index, bytes(gk.revcomp(w)))
+			if a1 != a2:
+				exp, act = ['kmer_to_index_rc(w) == kmer_to_index(revcomp(w))', a1], ['differs', a2]
 	elif kind == 'dec':
 		idx, k = int(case['index']), int(case['k'])
 		if k < 0:
